@@ -307,8 +307,15 @@ class Gen:
                 h = self.linear(h, d)
             elif kd == "attn":
                 h = self.attention(h)
+                if r.random() < 0.5:
+                    # tensor *method* calls (reshape / transpose / flatten) between the attention
+                    # and the residual addition, as in a multi-head merge
+                    h = self.reshape_pair(h)
                 if self.D(h) != d:
                     h = self.linear(h, d)
+            elif kd == "act" and r.random() < 0.3:
+                h = self.unary(h)
+                h = self.reshape_pair(h)
             elif kd == "act":
                 for _ in range(n):
                     h = self.unary(h)
